@@ -263,3 +263,109 @@ class NquadProbe:
 class IntegrateProxy:
     def __init__(self, probe):
         self.nquad = probe.nquad
+
+
+# ------------------------------------------------------------------------------------------------
+# matplotlib / savetxt recorders
+#
+# contract: Axes.plot(x, y, ...), Axes.scatter(x, y, ...), Axes.contour(X, Y, Z, ...), Axes.hist(data, ...) draw
+# exactly the data they are handed; np.savetxt(fname, X, fmt, delimiter, header, comments) writes X row by row with
+# that format.  The recorders keep the arguments so that they can be compared with the computed values.
+
+
+class _Dummy:
+    """absorbs any styling call (set_marker, set_text, remove, ...)"""
+
+    def __getattr__(self, name):
+        def f(*a, **k):
+            return _Dummy()
+        return f
+
+    def __iter__(self):
+        return iter(())
+
+    def __getitem__(self, i):
+        return _Dummy()
+
+    def __len__(self):
+        return 0
+
+
+class RecAxes:
+    def __init__(self, name="ax"):
+        self.name = name
+        self.calls = []
+        self.lines = []
+        self.title = _Dummy()
+
+    def _rec(self, kind, args, kw):
+        self.calls.append((kind, args, kw))
+
+    def plot(self, *args, **kw):
+        self._rec("plot", args, kw)
+        ln = _Dummy()
+        self.lines.append(ln)
+        return [ln]
+
+    def scatter(self, *args, **kw):
+        self._rec("scatter", args, kw)
+        return _Dummy()
+
+    def contour(self, *args, **kw):
+        self._rec("contour", args, kw)
+        c = _Dummy()
+        c.collections = []
+        return c
+
+    def hist(self, *args, **kw):
+        self._rec("hist", args, kw)
+        return _Dummy()
+
+    def get_lines(self):
+        return self.lines if self.lines else [_Dummy()]
+
+    def get_xlim(self):
+        return (0.0, 1.0)
+
+    def get_ylim(self):
+        return (0.0, 1.0)
+
+    def of(self, kind):
+        return [c for c in self.calls if c[0] == kind]
+
+    def __getattr__(self, name):
+        if name.startswith("__"):
+            raise AttributeError(name)
+
+        def f(*a, **k):
+            self.calls.append((name, a, k))
+            return _Dummy()
+        return f
+
+
+class RecPlt:
+    def __init__(self):
+        self.figs = []
+        self.axes = []
+
+    def subplots(self, nrows=1, ncols=1, squeeze=True, **kw):
+        fig = _Dummy()
+        self.figs.append(fig)
+        if nrows == 1 and ncols == 1 and squeeze:
+            ax = RecAxes(f"ax{len(self.axes)}")
+            self.axes.append(ax)
+            return fig, ax
+        arr = np.empty((nrows, ncols), dtype=object)
+        for i in range(nrows):
+            for j in range(ncols):
+                arr[i, j] = RecAxes(f"ax{len(self.axes)}")
+                self.axes.append(arr[i, j])
+        return fig, arr
+
+    def Line2D(self, *a, **k):
+        return _Dummy()
+
+    def __getattr__(self, name):
+        def f(*a, **k):
+            return _Dummy()
+        return f
